@@ -89,6 +89,9 @@ type VEvent struct {
 func (w *vWorld) memBase() uint64 { return vMemBase0 + w.epoch*vMemEpoch }
 
 // vCompile lowers every local function of the binary with the real front end and passes.
+// vSharedCompiler: see vCompileCfg.
+var vSharedCompiler bool
+
 func vCompile(bin []byte, ensureTermination, listeners bool) (*vWorld, error) {
 	return vCompileCfg(bin, ensureTermination, listeners, false, false, false)
 }
@@ -105,10 +108,16 @@ func vCompileCfg(bin []byte, ensureTermination, listeners, capFromMax, dwarf, cu
 	}
 	m.BuildMemoryDefinitions()
 	w := &vWorld{m: m, off: wazevoapi.NewModuleContextOffsetData(m, listeners)}
+	var b ssa.Builder
+	var c *Compiler
 	for i := range m.CodeSection {
-		b := ssa.NewBuilder()
-		off := w.off
-		c := NewFrontendCompiler(m, b, &off, ensureTermination, listeners, false)
+		if !vSharedCompiler || i == 0 {
+			// vSharedCompiler: one compiler and one builder for all functions, as the engine does; only the function
+			// compiled LAST can then be evaluated (the builder holds one function at a time)
+			b = ssa.NewBuilder()
+			off := w.off
+			c = NewFrontendCompiler(m, b, &off, ensureTermination, listeners, false)
+		}
 		typIndex := m.FunctionSection[i]
 		typ := &m.TypeSection[typIndex]
 		code := &m.CodeSection[i]
